@@ -269,3 +269,35 @@ def replay(ctx, adapter_spec, behaviours, params=None, procs=None,
                                      observed=info["obs"],
                                      expected=info["exp"]))
   return stats
+
+
+# --------------------------------------------------------------------------
+# Code -> spec drivers (run in worker processes, return recorded traces)
+
+def _drive_chunk(arg):
+  spec, items = arg
+  try:
+    modname, fn = spec.split(":")
+    if REPO not in sys.path:
+      sys.path.insert(0, REPO)
+    if VERIF not in sys.path:
+      sys.path.insert(0, VERIF)
+    f = getattr(__import__(modname, fromlist=[fn]), fn)
+    return ("done", [f(x) for x in items])
+  except Exception:
+    return ("machinery", traceback.format_exc())
+
+
+def run_driver(spec, items, procs=16, chunk=None):
+  """Run driver function `module:function` over items in worker processes."""
+  items = list(items)
+  chunk = chunk or max(1, min(200, len(items) // (procs * 2) or 1))
+  chunks = [(spec, items[i:i + chunk]) for i in range(0, len(items), chunk)]
+  out = []
+  mp = multiprocessing.get_context("fork")
+  with mp.Pool(min(procs, len(chunks))) as pool:
+    for r in pool.imap(_drive_chunk, chunks):
+      if r[0] == "machinery":
+        raise Machinery("driver failure:\n" + r[1])
+      out.extend(r[1])
+  return out
